@@ -36,6 +36,11 @@ def cases(tier, seed):
         kind = kinds[k % len(kinds)]
         d = rng.randint(2, 3)
         nu = rng.randint(1, 6 if tier == "thorough" else 4)
+        # small-residual regime (order 4-5, steps of 0.004..0.02: raw residuals of 1e-8..1e-13) in every other round of the
+        # fixed-grid kinds: absolute thresholds / fallbacks inside one factorisation's calibration show only there (seed C14-s2)
+        small = (k // len(kinds)) % 2 == 1 and kind in ("ts0", "decoupled")
+        if small:
+            nu = rng.randint(4, 5)
         if kind in ("ts0", "adaptive"):
             field, inits, t0 = poly.random_problem(rng, d=d, nblocks=1, num_coeffs=nu + 1, degree=rng.choice([2, 3]), nterms=3, time_dep=rng.random() < 0.5)
         elif kind == "decoupled":
@@ -77,7 +82,8 @@ def cases(tier, seed):
         out.append(
             {
                 "id": f"{kind}-{k}", "kind": kind, "nu": nu, "strategy": rng.choice(["filter", "fixedinterval", "fixedpoint"]) if kind != "adaptive" else rng.choice(["filter", "fixedpoint"]),
-                "cal": rng.choice(configs.CALS), "steps": [configs.loguniform(rng, 0.02, 0.3) for _ in range(nsteps)],
+                "cal": ["mle", "dynamic"][(k // (2 * len(kinds))) % 2] if small else rng.choice(configs.CALS),
+                "steps": [configs.loguniform(rng, 0.004, 0.02) if small else configs.loguniform(rng, 0.02, 0.3) for _ in range(nsteps)],
                 "field": field.to_json(), "inits": [[str(x) for x in b] for b in inits], "t0": str(t0),
                 "tol": 10 ** rng.uniform(-6, -3), "relin": rng.random() < 0.5, "cost": 6.0,
             }
